@@ -230,9 +230,23 @@ def make_pmappings_from_templates(
     results = []
     pmapping_keep_rates = []
 
+    from accelforge.model.main import InvalidMappingError
+
     for job in jobs_with_similar_compatibilities:
         try:
             result, tensor2mapping = make_tile_shapes(job)
+        except InvalidMappingError:
+            # A template with no free tile shapes that oversubscribes a resource simply
+            # has no valid pmappings; other templates may still have some.
+            pmapping_keep_rates.append(
+                (
+                    job.job_id,
+                    dict(job.pmapping_keep_rates),
+                    job.n_total_pmappings,
+                    job.n_evaluated_pmappings,
+                )
+            )
+            continue
         except Exception as e:
             e.add_note(f"Einsum {jwsc.einsum_name} compatibility {job.compatibility}")
             raise
@@ -290,6 +304,9 @@ def make_pmappings_from_templates(
     metrics = jwsc.metrics
     drop_valid_reservations = not (Metrics.RESOURCE_USAGE & metrics)
     compatibility = jwsc.compatibility
+
+    if not results:
+        return einsum_name, [], {}, pmapping_keep_rates
 
     # Creating a PmappingDataframe fills in reservation columns since different pmappings
     # have different ones.
